@@ -61,14 +61,14 @@ claimed["C11"] = dict(
    text="Static path/dataflow rules on the verifier-state update decide structural necessary conditions of the update data: every added leaf is recorded on every "
         "path of the add loop, the previous leaf count is read before the add phase, the add lists are sorted after the last insertion, the destroyed-roots list is "
         "computed from the pre-add state, the delete lists come from the core run with emptied targets, every success return hands out the filled update data, the recorded position "
-        "of an added leaf depends on the lifting call, and no node is identified by a truncated hash. The hashes and positions inside the lists are not decided.",
+        "of an added leaf depends on the lifting call, no node is identified by a truncated hash, and the leaf count is only ever incremented. The hashes and positions inside the lists are not decided.",
    ref="DESIGN.md 5/C11, engine E2",
    technique="static must-pass-through (dominance over loop latches), ordering and provenance rules on go/ssa; phases resolved by role (custom analyzer)")
 claimed["C07"] = dict(
    text="Thin claim: static rules decide the clause 'every added leaf it asked to remember' at its only source (every added leaf is listed in the update data on "
         "every path) and the wiring of the cached-proof update (each phase fed from its own UpdateData lists, positions paired with their hashes, remove before add "
         "on the returned hashes); the recorded position of an added leaf depends on the call that lifts it over overwritten empty roots; remembered leaves are looked up by their "
-        "full hash, never by a position computed from the leaf count or by a truncated hash. Positions, canonicity and retention over deletions are not decided.",
+        "full hash, never by a position computed from the leaf count or by a truncated hash; a discarded error of a position function in the update is excluded by a guard or a reviewed lemma covering every failing return of the callee (a failing call would pair the leaf with position 0). Positions, canonicity and retention over deletions are not decided.",
    ref="DESIGN.md 5/C07, engine E2",
    technique="static must-pass-through and dataflow-wiring rules on go/ssa (custom analyzer)")
 
@@ -100,7 +100,7 @@ claimed["C15"] = dict(
 claimed["C01"] = dict(
    text="Thin claim: a static sibling cross-check of the three block-application implementations decides three clauses necessary for equal roots — delete phase "
         "dominates add phase, the older root is the left hash input and the incoming node the right one, and merging is guarded by the root not being empty; and where the map forest moves a node (delete at the old position, put at the new one: growth, "
-        "move-up, undo) the put happens on every path that deletes, empty roots included; and the map forest's growth step (sized for one more leaf) is reached on every iteration of the loop over the added leaves. Root equality over all histories (position arithmetic, deletion, TotalRows) is not decided.",
+        "move-up, undo) the put happens on every path that deletes, empty roots included; the map forest's growth step (sized for one more leaf) is reached on every iteration of the loop over the added leaves; and while a block is applied the leaf count is only ever incremented. Root equality over all histories (position arithmetic, deletion, TotalRows) is not decided.",
    ref="DESIGN.md 5/C01, engine E2",
    technique="static sibling-agreement cross-check: dominance, data-dependence classification of hash inputs and guard rules on go/ssa (custom analyzer)")
 
